@@ -21,6 +21,7 @@ type C12Val struct {
 	Text string `json:"text,omitempty"` // non-numeric scalar: what printing it shows (nil, true, false, a string)
 	Empty bool  `json:"empty,omitempty"` // the empty string
 	ArrRef int  `json:"arr_ref,omitempty"` // >0: an array whose first element is that object
+	ArrNum int  `json:"arr_num,omitempty"` // ... and whose second element is this number
 }
 
 type C12Block struct {
@@ -32,6 +33,15 @@ type C12Block struct {
 	Deep map[string]map[string]C12Val `json:"deep,omitempty"`
 	// Tokens[k] = how many times "k:" must at least appear when the whole object is printed
 	Tokens map[string]int `json:"tokens,omitempty"`
+	// Nums: every number stored anywhere in the object (nested objects and arrays included): each
+	// must be visible when the whole object is printed. Stale: numbers that were stored in it
+	// earlier and are not any more: none may still be visible.
+	Nums  []int `json:"nums,omitempty"`
+	Stale []int `json:"stale,omitempty"`
+	// Kind "reprint": the object is printed, mutated by one operation (Op), and printed again,
+	// with nothing else printed in between. Nums describe the first print, After the second.
+	Kind  string `json:"kind,omitempty"`
+	After []int  `json:"after,omitempty"`
 }
 
 type C12Expect struct {
@@ -61,6 +71,7 @@ type c12Gen struct {
 	blocks []C12Block
 	ops    []string
 	tmp    int
+	seenNums map[int]map[int]bool // object id -> numbers that were ever stored in it (directly or nested)
 }
 
 func (g *c12Gen) add(s string) int { g.lines = append(g.lines, s); return len(g.lines) }
@@ -85,7 +96,10 @@ func (g *c12Gen) replLine() string {
 	}
 	return strings.Join(parts, " ")
 }
-func (g *c12Gen) val() int         { g.nval++; return 100 + g.nval }
+// val: a fresh number. They start above every code point used in the programs' strings (the
+// tree prints a string stored in an object as its code points), so that a number can be told
+// from anything else in a printed object.
+func (g *c12Gen) val() int { g.nval++; return 3000 + g.nval }
 
 // value draws a property value: mostly a unique number, sometimes nil (literal
 // or from a function that returns nothing), a boolean or a unique string.
@@ -254,8 +268,73 @@ func (g *c12Gen) observe(op string) {
 		g.add(fmt.Sprintf("%s \"@P\";", KwPrint))
 		g.add(fmt.Sprintf("%s %s;", KwPrint, v))
 		g.add(fmt.Sprintf("%s \"@E\";", KwPrint))
-		g.blocks = append(g.blocks, C12Block{Step: g.step, Var: v, Op: op, Model: g.copyModel(id), Deep: deep, Tokens: tokens})
+		nums, texts := g.reachNums(id)
+		g.blocks = append(g.blocks, C12Block{Step: g.step, Var: v, Op: op, Model: g.copyModel(id), Deep: deep, Tokens: tokens, Nums: nums, Stale: g.staleNums(id, nums, texts)})
 	}
+}
+
+// reachNums returns the numbers stored anywhere below object id, and the concatenation of every
+// key and non-numeric text below it (a number that also occurs inside one of those is not
+// a usable token).
+func (g *c12Gen) reachNums(id int) ([]int, string) {
+	set := map[int]bool{}
+	var texts strings.Builder
+	seen := map[int]bool{}
+	var walk func(x int)
+	walk = func(x int) {
+		if seen[x] {
+			return
+		}
+		seen[x] = true
+		for _, k := range sortedKeys(g.heap[x]) {
+			v := g.heap[x][k]
+			texts.WriteString(k + " ")
+			if v.Ref > 0 {
+				walk(v.Ref)
+			} else if v.ArrRef > 0 {
+				walk(v.ArrRef)
+				if v.ArrNum > 0 {
+					set[v.ArrNum] = true
+				}
+			} else if v.Text != "" {
+				texts.WriteString(v.Text + " ")
+			} else if !v.Empty && v.Num > 0 {
+				set[v.Num] = true
+			}
+		}
+	}
+	walk(id)
+	var out []int
+	for n := range set {
+		out = append(out, n)
+	}
+	sort.Ints(out)
+	return out, texts.String()
+}
+
+// staleNums: numbers that were below object id at an earlier observation and are not now
+func (g *c12Gen) staleNums(id int, cur []int, texts string) []int {
+	if g.seenNums == nil {
+		g.seenNums = map[int]map[int]bool{}
+	}
+	if g.seenNums[id] == nil {
+		g.seenNums[id] = map[int]bool{}
+	}
+	now := map[int]bool{}
+	for _, n := range cur {
+		now[n] = true
+	}
+	var stale []int
+	for n := range g.seenNums[id] {
+		if n > 3000 && !now[n] && !strings.Contains(texts, strconv.Itoa(n)) {
+			stale = append(stale, n)
+		}
+	}
+	sort.Ints(stale)
+	for _, n := range cur {
+		g.seenNums[id][n] = true
+	}
+	return stale
 }
 
 func sortedKeys(m map[string]C12Val) []string {
@@ -275,6 +354,7 @@ func (g *c12Gen) prelude() {
 	g.add(fmt.Sprintf("%s wr1(o, v) { o.alpha = v; }", KwFun))
 	g.add(fmt.Sprintf("%s wr2(o, v) { o.delta = v; %s o; }", KwFun, KwReturn))
 	g.add(fmt.Sprintf("%s mk() { %s {alpha: 1, beta: 2, gamma: 3}; }", KwFun, KwReturn))
+	g.add(fmt.Sprintf("%s mkn() { %s {alpha: 1, child: {beta: 2, gamma: 3}, arr: [{delta: 4}, 5]}; }", KwFun, KwReturn))
 	g.add(fmt.Sprintf("%s del(o, k) { %s(o, k); }", KwFun, FnDelete))
 	g.add(fmt.Sprintf("%s noret() { }", KwFun))
 }
@@ -299,7 +379,7 @@ func c12Program(s Src, maxOps int) (string, *C12Expect) {
 		for mi := 0; mi < nmut; mi++ {
 			kind := "literal"
 			if len(g.order) > 0 {
-				kind = Pick(s, "op", []string{"literal", "literal", "alias", "write-new", "write-existing", "write-existing", "delete", "delete", "fn-write", "fn-write-ret", "array-alias", "child", "child2", "child-write", "arr-prop", "arr-prop-write", "write-negzero", "write-rebinding", "chain-write", "stateful-call-write", "mk-twice", "fn-delete", "empty-literal", "read", "rewrite-literal"})
+				kind = Pick(s, "op", []string{"literal", "literal", "alias", "write-new", "write-existing", "write-existing", "delete", "delete", "fn-write", "fn-write-ret", "array-alias", "child", "child2", "child-write", "arr-prop", "arr-prop-write", "write-negzero", "write-rebinding", "chain-write", "stateful-call-write", "mk-twice", "fn-delete", "empty-literal", "read", "rewrite-literal", "mk-nested-twice", "mk-nested-twice", "arr-elem-write", "reprint", "reprint"})
 			}
 			opName := kind
 			switch kind {
@@ -471,8 +551,9 @@ func c12Program(s Src, maxOps int) (string, *C12Expect) {
 					g.add("// would create a cycle")
 					break
 				}
-				g.add(fmt.Sprintf("%s.arr = [%s, %d];", p, c, g.val()))
-				g.heap[pid]["arr"] = C12Val{ArrRef: cid}
+				an := g.val()
+				g.add(fmt.Sprintf("%s.arr = [%s, %d];", p, c, an))
+				g.heap[pid]["arr"] = C12Val{ArrRef: cid, ArrNum: an}
 			case "arr-prop-write":
 				var cands []string
 				for _, v := range g.order {
@@ -501,6 +582,120 @@ func c12Program(s Src, maxOps int) (string, *C12Expect) {
 				val := g.val()
 				g.add(fmt.Sprintf("%s.beta = %d;", b, val))
 				g.heap[g.vars[b]]["beta"] = C12Val{Num: val}
+			case "mk-nested-twice":
+				// one literal WITH NESTED LITERALS evaluated twice (a factory called twice, or a loop
+				// body run twice) gives objects that share nothing
+				a, b := Pick(s, "var", varNames), Pick(s, "var2", varNames)
+				mkOne := func() int {
+					c := g.newObj(map[string]C12Val{"beta": {Num: 2}, "gamma": {Num: 3}})
+					d := g.newObj(map[string]C12Val{"delta": {Num: 4}})
+					return g.newObj(map[string]C12Val{"alpha": {Num: 1}, "child": {Ref: c}, "arr": {ArrRef: d, ArrNum: 5}})
+				}
+				ida, idb := mkOne(), mkOne()
+				if Bool(s, "viafactory") {
+					g.setVar(a, ida, "mkn()")
+					g.setVar(b, idb, "mkn()")
+				} else {
+					g.tmp++
+					t := g.tmp
+					g.add(fmt.Sprintf("%s keep%d = [];", KwVar, t))
+					g.add(fmt.Sprintf("%s (%s li%d = 0; li%d < 2; li%d = li%d + 1) { %s kt%d = (keep%d = %s(keep%d, {alpha: 1, child: {beta: 2, gamma: 3}, arr: [{delta: 4}, 5]})); }", KwFor, KwVar, t, t, t, t, KwVar, t, t, FnAppend, t))
+					g.setVar(a, ida, fmt.Sprintf("keep%d[0]", t))
+					g.setVar(b, idb, fmt.Sprintf("keep%d[1]", t))
+				}
+				// (a and b may be the same variable: then only the second object is still held)
+				v1, v2, v3 := g.val(), g.val(), g.val()
+				g.add(fmt.Sprintf("%s.child.beta = %d;", b, v1))
+				g.heap[g.heap[g.vars[b]]["child"].Ref]["beta"] = C12Val{Num: v1}
+				g.add(fmt.Sprintf("%s.arr[0].delta = %d;", a, v2))
+				g.heap[g.heap[g.vars[a]]["arr"].ArrRef]["delta"] = C12Val{Num: v2}
+				g.add(fmt.Sprintf("%s.arr[1] = %d;", b, v3))
+				ar := g.heap[g.vars[b]]["arr"]
+				ar.ArrNum = v3
+				g.heap[g.vars[b]]["arr"] = ar
+			case "arr-elem-write":
+				// the second element of an array held in a property is replaced: no property of any object is written
+				var cands []string
+				for _, v := range g.order {
+					if a, ok := g.heap[g.vars[v]]["arr"]; ok && a.ArrRef > 0 {
+						cands = append(cands, v)
+					}
+				}
+				if len(cands) == 0 {
+					opName = "noop"
+					g.add("// no array property to write into")
+					break
+				}
+				p := Pick(s, "parent", cands)
+				val := g.val()
+				g.add(fmt.Sprintf("%s.arr[1] = %d;", p, val))
+				ar := g.heap[g.vars[p]]["arr"]
+				ar.ArrNum = val
+				g.heap[g.vars[p]]["arr"] = ar
+			case "reprint":
+				// print, ONE mutation, print again — nothing else printed in between
+				v := g.pickVar("target")
+				id := g.vars[v]
+				before, _ := g.reachNums(id)
+				g.add(fmt.Sprintf("%s \"@R %d %s\";", KwPrint, g.step, v))
+				g.add(fmt.Sprintf("%s %s;", KwPrint, v))
+				mut := "write"
+				val := g.val()
+				ks := sortedKeys(g.heap[id])
+				var viaArr, viaChild []string
+				for _, k := range ks {
+					if g.heap[id][k].ArrRef > 0 {
+						viaArr = append(viaArr, k)
+					}
+					if g.heap[id][k].Ref > 0 {
+						viaChild = append(viaChild, k)
+					}
+				}
+				switch choice := s.Int("remut", 0, 4); {
+				case choice == 0 && len(viaArr) > 0:
+					k := Pick(s, "key", viaArr)
+					mut = "array-element"
+					g.add(fmt.Sprintf("%s.%s[1] = %d;", v, k, val))
+					ar := g.heap[id][k]
+					ar.ArrNum = val
+					g.heap[id][k] = ar
+				case choice == 1 && len(viaArr) > 0:
+					k := Pick(s, "key", viaArr)
+					mut = "through-array"
+					ck := Pick(s, "key2", c12Keys)
+					g.add(fmt.Sprintf("%s.%s[0].%s = %d;", v, k, ck, val))
+					g.heap[g.heap[id][k].ArrRef][ck] = C12Val{Num: val}
+				case choice == 2 && len(viaChild) > 0:
+					k := Pick(s, "key", viaChild)
+					mut = "through-child"
+					ck := Pick(s, "key2", c12Keys)
+					g.add(fmt.Sprintf("%s.%s.%s = %d;", v, k, ck, val))
+					g.heap[g.heap[id][k].Ref][ck] = C12Val{Num: val}
+				case choice == 3 && len(ks) > 0:
+					k := Pick(s, "key", ks)
+					mut = "delete"
+					g.add(fmt.Sprintf("%s(%s, \"%s\");", FnDelete, v, k))
+					delete(g.heap[id], k)
+				default:
+					k := Pick(s, "key", c12Keys)
+					g.add(fmt.Sprintf("%s.%s = %d;", v, k, val))
+					g.heap[id][k] = C12Val{Num: val}
+				}
+				g.add(fmt.Sprintf("%s %s;", KwPrint, v))
+				g.add(fmt.Sprintf("%s \"@RE\";", KwPrint))
+				after, texts := g.reachNums(id)
+				now := map[int]bool{}
+				for _, n := range after {
+					now[n] = true
+				}
+				var gone []int
+				for _, n := range before {
+					if n > 3000 && !now[n] && !strings.Contains(texts, strconv.Itoa(n)) {
+						gone = append(gone, n)
+					}
+				}
+				opName = "reprint-" + mut
+				g.blocks = append(g.blocks, C12Block{Kind: "reprint", Step: g.step, Var: v, Op: opName, Nums: before, After: after, Stale: gone})
 			case "read":
 				// read of a present key is part of every observation; here: read through an alias expression
 				v := g.pickVar("target")
@@ -897,6 +1092,34 @@ func c12CheckRun(cs *Case, ex *C12Expect, run int, o Obs) *Violation {
 	}
 	for _, b := range ex.Blocks {
 		sig := fmt.Sprintf("op:%s", b.Op)
+		if b.Kind == "reprint" {
+			hdr := fmt.Sprintf("@R %d %s", b.Step, b.Var)
+			l, ok := next()
+			if !ok || l != hdr {
+				return mk("output-truncated", sig, fmt.Sprintf("expected block %q, got %q (stderr=%q)", hdr, l, firstLine(o.Stderr)))
+			}
+			first, _ := next()
+			second, _ := next()
+			if l, _ := next(); l != "@RE" {
+				return mk("listing-malformed", sig, fmt.Sprintf("step %d %s: expected @RE, got %q (stderr=%q)", b.Step, b.Var, l, firstLine(o.Stderr)))
+			}
+			for _, n := range b.Nums {
+				if !hasNumToken(first, n) {
+					return mk("print-missing-value", sig, fmt.Sprintf("step %d: printing %s shows %q: the stored value %d is not shown", b.Step, b.Var, first, n))
+				}
+			}
+			for _, n := range b.After {
+				if !hasNumToken(second, n) {
+					return mk("print-missing-value", sig, fmt.Sprintf("step %d: printing %s right after %s shows %q: the stored value %d is not shown (print before the operation: %q)", b.Step, b.Var, b.Op, second, n, first))
+				}
+			}
+			for _, n := range b.Stale {
+				if hasNumToken(second, n) {
+					return mk("print-stale-value", sig, fmt.Sprintf("step %d: printing %s right after %s shows %q: the value %d is not stored any more", b.Step, b.Var, b.Op, second, n))
+				}
+			}
+			continue
+		}
 		hdr := fmt.Sprintf("@B %d %s", b.Step, b.Var)
 		l, ok := next()
 		if !ok || l != hdr {
@@ -975,6 +1198,16 @@ func c12CheckRun(cs *Case, ex *C12Expect, run int, o Obs) *Violation {
 				return mk("print-missing-property", sig, fmt.Sprintf("step %d: printing %s shows %q: property %q must appear %d times (nested objects included)", b.Step, b.Var, whole, k, b.Tokens[k]))
 			}
 		}
+		for _, n := range b.Nums {
+			if !hasNumToken(whole, n) {
+				return mk("print-missing-value", sig, fmt.Sprintf("step %d after %s: printing %s shows %q: the stored value %d is not shown", b.Step, b.Op, b.Var, whole, n))
+			}
+		}
+		for _, n := range b.Stale {
+			if hasNumToken(whole, n) {
+				return mk("print-stale-value", sig, fmt.Sprintf("step %d after %s: printing %s shows %q: the value %d is not stored any more", b.Step, b.Op, b.Var, whole, n))
+			}
+		}
 		if l, _ := next(); l != "@E" {
 			return mk("listing-malformed", sig, fmt.Sprintf("step %d %s: expected @E, got %q", b.Step, b.Var, l))
 		}
@@ -1007,6 +1240,9 @@ func c12CheckRun(cs *Case, ex *C12Expect, run int, o Obs) *Violation {
 
 func c12ValMatches(v C12Val, line string) bool {
 	// how a nested object or array is rendered is not C12's business: any non-empty text
+	if v.ArrRef > 0 && v.ArrNum > 0 {
+		return hasNumToken(line, v.ArrNum)
+	}
 	if v.Ref > 0 || v.ArrRef > 0 {
 		return strings.TrimSpace(line) != ""
 	}
@@ -1036,6 +1272,25 @@ func c12ValString(v C12Val) string {
 		return v.Text
 	}
 	return strconv.Itoa(v.Num)
+}
+
+// hasNumToken: the decimal digits of n occur in text, not as part of a longer number or word
+func hasNumToken(text string, n int) bool {
+	d := strconv.Itoa(n)
+	isWord := func(c byte) bool {
+		return c >= '0' && c <= '9' || c >= 'a' && c <= 'z' || c >= 'A' && c <= 'Z' || c == '_' || c == '.' || c >= 0x80
+	}
+	for i := 0; ; {
+		j := strings.Index(text[i:], d)
+		if j < 0 {
+			return false
+		}
+		a, b := i+j, i+j+len(d)
+		if (a == 0 || !isWord(text[a-1])) && (b == len(text) || !isWord(text[b]) || text[b] == '.' && (b+1 == len(text) || text[b+1] < '0' || text[b+1] > '9')) {
+			return true
+		}
+		i = a + 1
+	}
 }
 
 // nfc: দেখাও prints text in NFC, so listed keys are compared in that form
